@@ -168,6 +168,36 @@ def main(tier, seed, out):
                     ok = ra is not None and rb is not None and abs(ra[0] - abs(a)) <= half_unit(a, 3) and abs(rb[0] - abs(b)) <= half_unit(b, 3)
                 if not ok:
                     failures.append({'value': repr(complex(a, b)), 'precision': 3, 'what': f'complex text {text!r} does not denote both parts of the value', 'kind': 'complex'})
+    # polar form: magnitude to p digits, angle to the printed decimals (4 in radians, 2 in degrees); the angle may only be left out
+    # when it is at most one unit of its last printed decimal
+    for _ in range(300 if tier == 'quick' else 6000):
+        deg = rng.random() < 0.5
+        mag = rng.uniform(1, 9.99) * 10.0 ** rng.randint(-4, 4)
+        ang = rng.choice([-1, 1]) * rng.choice([rng.uniform(0, math.pi), 10.0 ** rng.uniform(-6, 0), 10.0 ** rng.uniform(-3, -1)])
+        z = complex(mag * math.cos(ang), mag * math.sin(ang))
+        n += 1
+        try:
+            text = dsp.print_complex(z, unit='V', precision=3, polar=True, deg=deg)
+        except Exception as ex:
+            failures.append({'value': repr(z), 'precision': 3, 'what': f'polar print raises {type(ex).__name__}: {ex}', 'kind': 'polar'})
+            continue
+        shown = math.degrees(ang) if deg else ang
+        unit_last = 1e-2 if deg else 1e-4
+        if '∠' in text:
+            m_txt, a_txt = text.split('∠', 1)
+            a_txt = a_txt.rstrip('°')
+            try:
+                a_val = float(a_txt)
+                ok = abs(a_val - shown) <= 0.5 * unit_last * 1.0001 + 1e-12
+            except ValueError:
+                ok = False
+        else:
+            m_txt = text
+            ok = abs(shown) <= unit_last * 1.0001
+        rm = parse(m_txt, 'V', set('umk'))
+        ok = ok and rm is not None and abs(rm[0] - mag) <= half_unit(mag, 3)
+        if not ok:
+            failures.append({'value': repr(z), 'precision': 3, 'what': f'polar text {text!r} (deg={deg}) does not denote magnitude {mag!r} and angle {shown!r}', 'kind': 'polar'})
     # sinusoidal labels: amplitude and frequency (in Hz and in rad/s) carry the requested precision
     for _ in range(150 if tier == 'quick' else 3000):
         p = rng.choice([3, 4, 5])
@@ -196,7 +226,7 @@ def main(tier, seed, out):
         if '∞' not in t or (v < 0) != t.startswith('-'):
             failures.append({'value': repr(v), 'precision': 3, 'what': f'{t!r} should saturate to an infinity sign', 'kind': 'saturation'})
     json.dump({'evaluations': n, 'distinct': len(distinct), 'failures': failures[:200], 'n_failures': len(failures), 'samples': samples,
-               'bound': f'tier {tier}: p-digit decimal mantissas x powers of ten 1e-15..1e15 (exhaustive for p<=2, sampled for p>=3), float neighbours, both signs, 5 prefix tables; p=5,6 sampled; complex quadrants sampled'},
+               'bound': f'tier {tier}: p-digit decimal mantissas x powers of ten 1e-15..1e15 (exhaustive for p<=2, sampled for p>=3), float neighbours, both signs, 5 prefix tables; p=5,6 sampled; complex values: every pair of decades inside the representable range of print_complex / print_impedance x four quadrants (sampled mantissas), polar form with angles down to 1e-6 (radians and degrees), sinusoidal labels (amplitude and frequency in Hz and rad/s at p = 3..5)'},
               open(out, 'w'), indent=1)
 
 
